@@ -1113,8 +1113,8 @@ def make_blockwise_back_key_function_flattened(
 
     def blockwise_fn_flattened(out_key):
         in_keys = back_key_function(out_key)[1:]  # drop function in position 0
-        # flatten (nested) lists indicating contraction
-        if isinstance(in_keys[0], list):
+        # flatten (nested) lists indicating contraction (in any of the arguments)
+        if any(isinstance(in_key, list) for in_key in in_keys):
             in_keys = list(flatten(in_keys))
         return FunctionArgs(
             *(ChunkKey(in_key[0], in_key[1:]) for in_key in in_keys),
